@@ -16,6 +16,24 @@ PROPS = {
         design_ref="DESIGN.md §5 C07",
         assumptions=[],
     ),
+    "C11": dict(
+        units=["leader"],
+        level="proof",
+        level_text="Deductive proof (Verus) over the real text of Schedule::view_leader, Schedule::get and "
+                   "LeaderSelection::leader_weighted_eligibility: for every well-formed schedule and every 64-bit view the function "
+                   "terminates without panic (no division by zero, no index out of range, unwraps succeed, unreachable!() is dead), "
+                   "returns the key of the unique leader-eligible validator in the slot the statement prescribes (round-robin: "
+                   "(view/frequency) mod #eligible, frequency 0 => turn 0; weighted: the slot whose cumulative-weight interval "
+                   "contains keccak(turn) mod leader_weight). Lemmas: slot uniqueness, frequency-0 never rotates, round-robin "
+                   "rotation by one every `frequency` views, each eligible validator owns exactly weight-many residues.",
+        level_note="Trusted: num_bigint::BigUint operations and keccak256 as documented (assumed contracts, listed in evidence); "
+                   "uniform distribution of keccak is not assumed, so 'proportional share' is proved in its combinatorial form. "
+                   "Schedule::wf() (what Schedule::new establishes) is a precondition; order-independence of the schedule "
+                   "listing rests on Schedule::new sorting by key (BTreeMap) and is not re-proved here.",
+        technique="contract-based deductive verification (Verus on extracted real functions, loop invariant + lemmas)",
+        design_ref="DESIGN.md §5 C11",
+        assumptions=[],
+    ),
 }
 
 NOT_APPLICABLE = {
